@@ -104,7 +104,7 @@ func New(rt *rapid.T, o Opts) *Builder {
 	}
 	b := &Builder{rt: rt, O: o, Labels: map[string]int{}, defects: o.Defects}
 	if o.Defects > 0 {
-		kinds := []string{"kind", "shape", "enum", "exotic", "missing", "unexported", "ambiguous-case", "unknown-field", "ambiguous-automap"}
+		kinds := []string{"kind", "shape", "enum", "exotic", "missing", "unexported", "ambiguous-case", "unknown-field", "ambiguous-automap", "ambiguous-method"}
 		if len(o.DefectKinds) > 0 {
 			kinds = o.DefectKinds
 		}
@@ -209,6 +209,11 @@ var unexportedPool = []string{"name", "id", "secret", "count"}
 func (b *Builder) leafBasic() (*spec.T, *spec.T) {
 	k := basicKinds[b.draw(len(basicKinds), "kind")]
 	s, t := spec.Basic(k), spec.Basic(k)
+	// identical kinds that are spelled differently (byte/uint8, rune/int32)
+	if alt, ok := map[string]string{"byte": "uint8", "uint8": "byte", "rune": "int32", "int32": "rune"}[k]; ok && b.coin("alias-kind") {
+		t = spec.Basic(alt)
+		b.label("leaf:alias-spelling")
+	}
 	if b.want("kind") && b.chance(30, "defect-kind") {
 		b.defects--
 		k2 := basicKinds[(indexOf(basicKinds, k)+1+b.draw(len(basicKinds)-1, "kind2"))%len(basicKinds)]
@@ -713,6 +718,14 @@ func (b *Builder) extendPair(depth int) (*spec.T, *spec.T) {
 		// under update:ignoreZeroValueField:nillable keep function-converted sources non-nillable
 		s, _ = b.leafBasic()
 		_, t = b.Pair(min(depth, 1))
+	} else if b.chance(25, "extend-identical") {
+		// a function from a type to itself: never the identity, must still be called
+		s, _ = b.Pair(min(depth, 1))
+		if s.K == spec.KBasic {
+			s = b.namedBasic(b.A, "Self", s)
+		}
+		t = s
+		b.label("extend:identical-types")
 	} else if b.coin("extend-independent") {
 		// unrelated types: only the function can convert them
 		s, _ = b.Pair(min(depth, 1))
@@ -828,7 +841,10 @@ func (b *Builder) fields(depth int, own *model.Method, sd *spec.TypeDecl) ([]spe
 				}
 			}
 			if b.O.Methods && sd != nil {
-				variants = append(variants, "method")
+				variants = append(variants, "method", "method-casefield")
+				if b.want("ambiguous-method") {
+					variants = append(variants, "ambiguous-method", "ambiguous-method", "ambiguous-method")
+				}
 			}
 		}
 		if b.O.Unexported {
@@ -1009,6 +1025,24 @@ func (b *Builder) fields(depth int, own *model.Method, sd *spec.TypeDecl) ([]spe
 			}
 			sd.Methods = append(sd.Methods, tm)
 			ft = append(ft, spec.F(mn, spec.Basic(k)))
+		case "method-casefield", "ambiguous-method":
+			// a source method next to a field whose name differs only in case
+			mn := name()
+			if len(mn) < 3 {
+				break
+			}
+			k := []string{"int", "string", "bool"}[b.draw(3, "method-kind")]
+			methodName := mn
+			if v == "ambiguous-method" {
+				b.defects--
+				b.label("defect:ambiguous-method-case")
+				methodName = flipCaseAt(mn, 2)
+			}
+			sd.Methods = append(sd.Methods, spec.TypeMethod{Name: methodName, Result: spec.Basic(k), Body: "return " + zeroLit(k)})
+			fs = append(fs, spec.F(flipCase(mn), spec.Basic(k)))
+			ft = append(ft, spec.F(mn, spec.Basic(k)))
+			own.Settings.MatchIgnoreCase = true
+			own.FieldLines++
 		case "unexported":
 			nm := unexportedPool[b.draw(len(unexportedPool), "uname")]
 			if used[nm] {
@@ -1188,7 +1222,7 @@ func (b *Builder) fieldDefect() bool {
 		return false
 	}
 	switch b.defectKind {
-	case "ambiguous-case", "unknown-field", "ambiguous-automap":
+	case "ambiguous-case", "unknown-field", "ambiguous-automap", "ambiguous-method":
 		return true
 	}
 	return false
